@@ -39,7 +39,9 @@ class ProofFacts:
         self.lookup = guard_sel(g, lambda c: c[0] == 'present' and c[1][0] == 'skey' and c[1][1] == 'persistent'
                                 and key_variant(c[1][2])[0] == 'EpochBySignersHash'
                                 and same(core(key_variant(c[1][2])[1][0]), H))
-        self.retention = guard_sel(g, lambda c: self.is_retention(c))
+        # the set installed at the CURRENT epoch has age 0 and is inside every retention window (retention is unsigned): an
+        # `epoch(set) == current epoch` edge establishes the window without the subtraction
+        self.retention = guard_sel(g, lambda c: self.is_retention(c) or self.is_current(c))
         el = ('elem', ('field', 'signers', proof))
         self.elem = el
         self.weight = ('field', 'weight', ('field', 'signer', el))
@@ -59,6 +61,14 @@ class ProofFacts:
         if ab is None:
             return False
         return is_sget(ab[0], 'instance', 'Epoch') and is_epoch_of(ab[1], self.H)
+
+    def is_current(self, c):
+        if c[0] != 'cmp' or c[1] != 'eq':
+            return False
+        for a, b in ((c[2], c[3]), (c[3], c[2])):
+            if is_sget(a, 'instance', 'Epoch') and is_epoch_of(b, self.H):
+                return True
+        return False
 
     def is_acc(self, t):
         """weight accumulator: checked sum, starting at 0, of elem.signer.weight"""
@@ -106,7 +116,7 @@ def check_proof_ok(rep, rule, g, pf, sites, tag):
     """all `sites` (nodes) are must-guarded by the proof facts; reports under `rule`"""
     en = g.entry
     rep.floor('%s signer-set lookup guard' % en, len(pf.lookup), 1)
-    rep.floor('%s retention guard' % en, len(pf.retention), 1)
+    rep.floor('%s retention guard' % en, len([x for x in pf.retention if pf.is_retention(x.cond)]), 1)
     rep.floor('%s threshold guard' % en, len(pf.threshold), 1)
     rep.floor('%s ed25519_verify sites' % en, len(pf.verifies), 1)
     for n, desc, st in sites:
@@ -184,6 +194,9 @@ def completeness(rep, rule, g, pf, extra=()):
             op, a, b = d[2][1], d[2][2], d[2][3]
             if op == 'SubWithOverflow' and is_sget(a, 'instance', 'Epoch') and is_epoch_of(b, pf.H):
                 okk = 'epoch - set epoch (the set epoch never exceeds the current epoch)'
+            from norm import _is_counter
+            if op == 'AddWithOverflow' and _is_counter(a) and const_int(b) == 1:
+                okk = 'loop index + 1 (the index is below the length of a vector)'
             for name, pred in extra:
                 if pred(('trap', op, a, b)):
                     okk = name
